@@ -102,6 +102,18 @@ func genRulesFile(r *rand.Rand) rulesFile {
 	if chance(r, 0.8) {
 		content += nl
 	}
+	if !eolCR && chance(r, 0.12) {
+		// mixed line ends: some lines of an LF file end in CR LF (a pasted rule, an editor setting): lines are still the
+		// text between line feeds, a CR is the last byte of its line
+		var sb strings.Builder
+		for i, l := range strings.SplitAfter(content, "\n") {
+			if strings.HasSuffix(l, "\n") && (chance(r, 0.3) || i == 0) {
+				l = strings.TrimSuffix(l, "\n") + "\r\n"
+			}
+			sb.WriteString(l)
+		}
+		content = sb.String()
+	}
 	return rulesFile{content: content, targets: targets, prefix: prefix}
 }
 
